@@ -2,6 +2,7 @@ import Gopki.Lemmas.DerLemmas
 import Gopki.Spec.Ext
 import Gopki.Model.V1
 import Gopki.Generated.Facts
+import Gopki.Lemmas.AdmRound
 /-! # C16 — admission extension is the CommonPKI AdmissionSyntax of the configured content
 
 The encoder (`Cert.admissionTlv` and friends) is tied to the implementation byte for byte by the `ext`
@@ -47,5 +48,36 @@ theorem C16_profession_info_shape (item : String) (add : Bytes) (hadd : add ≠ 
 /-- a registration number that is not a PrintableString is an error, not a silently re-typed string -/
 theorem C16_registration_number_checked (s : String) (h : printableValid s = false) : ∃ e, printableR s = .error e := by
   unfold printableR; simp only [h]; exact ⟨_, rfl⟩
+
+/-- **the statement of C16 at model level**: for every admission tree (any number of admissions and profession
+    infos, every subset of optional members, every GeneralName kind for both authority fields) with acceptable
+    OIDs, IA5 naming-authority URLs and PrintableString registration numbers, `NewAdmission` succeeds, and the
+    decoder written from the CommonPKI ASN.1 reads back from the extension value exactly the configured
+    authorities, naming authorities (OID, URL, text), profession items, profession OIDs, registration number and
+    additional profession info — with absent optional parts absent.  The model's bytes are the implementation's
+    on every case of the `ext` operation. -/
+theorem C16_admission_roundtrip (critical : Bool) (a : Admission) (h : AdmRound.AdmOk a)
+    (hl : (AdmRound.admT a).enc.length < 2 ^ 64) :
+    ∃ e, newAdmission critical a = .ok e ∧ e.oid = oidAdmission ∧ e.critical = critical ∧
+      SpecExt.decAdmission e.value = some a := AdmRound.admission_roundtrip critical a h hl
+
+/-- the three levels separately (each for all inputs of its level) -/
+theorem C16_naming_authority_roundtrip (n : NamingAuthority) (h : AdmRound.NaOk n) :
+    namingAuthorityTlv n = .ok (AdmRound.naT n) ∧ SpecExt.decNamingAuthority (AdmRound.naT n) = some n :=
+  ⟨AdmRound.namingAuthorityTlv_ok n h, AdmRound.decNamingAuthority_naT n h⟩
+
+theorem C16_profession_info_roundtrip (p : ProfessionInfo) (h : AdmRound.PiOk p) :
+    professionInfoTlv p = .ok (AdmRound.piT p) ∧ SpecExt.decProfessionInfo (AdmRound.piT p) = some p :=
+  ⟨AdmRound.professionInfoTlv_ok p h, AdmRound.decProfessionInfo_piT p h⟩
+
+/-- non-vacuity: an admission with an IP authority, a text-only naming authority and one profession info
+    carrying items only meets the hypotheses -/
+example : AdmRound.AdmOk ⟨some (.ip 10 0 0 1), [⟨none, ⟨[], "", "Kammer"⟩, [⟨⟨[], "", ""⟩, ["Arzt"], [], "", []⟩]⟩]⟩ := by
+  intro c hc
+  simp at hc; subst hc
+  refine ⟨⟨Or.inl rfl, by simp [ia5Valid]⟩, ?_⟩
+  intro p hp
+  simp at hp; subst hp
+  exact ⟨⟨Or.inl rfl, by simp [ia5Valid]⟩, by intro o ho; simp at ho, by simp [printableValid]⟩
 
 end C16
